@@ -39,9 +39,10 @@ inductive Step {α : Type} (gen : Nat → α) : List α × Nat → Op α → Lis
       (hgt : c.length < n.toNat) (hd : d = [] ∨ d = c) :
       -- the mixed buffer refuses (short buffer, nothing); the ring wrapper returns what there is
       Step gen (c, pos) (.peek n) (c, pos) ⟨d.length, e, d⟩
-  | discard (c pos) (n : Int) (e : Err) (he : c ≠ [] → e = .nil) :
+  | discard (c pos) (n : Int) (e : Err) :   -- the property does not speak about Discard's error value
       Step gen (c, pos) (.discard n) (c.drop n.toNat, pos) ⟨min n.toNat c.length, e, []⟩
-  | bytes (c pos) : Step gen (c, pos) .bytes (c, pos) ⟨c.length, .nil, c⟩
+  | bytes (c pos) (d : List α) (hd : d = c ∨ d = c.take maxInt32) :   -- identical below 2 GiB
+      Step gen (c, pos) .bytes (c, pos) ⟨d.length, .nil, d⟩
   | readFrom (c pos sc m e) (he : e ≠ .eof) :
       Step gen (c, pos) (.readFrom sc) (c ++ fresh gen pos m, pos + m) ⟨m, e, []⟩
   | writeTo (c pos sc m e) (hm : m ≤ c.length) (he : e = .nil → m = c.length) :
